@@ -18,6 +18,16 @@ pub struct FixedTransaction {
 
 to_from_bytes!(FixedTransaction);
 
+// The raw parts are kept verbatim and written back as they are: each must be exactly one item.
+fn exact_from_bytes<T: Deserialize>(bytes: &[u8], what: &str) -> Result<T, JsError> {
+    let mut raw = Deserializer::from(std::io::Cursor::new(bytes));
+    let value = T::deserialize(&mut raw)?;
+    if raw.as_mut_ref().position() != bytes.len() as u64 {
+        return Err(JsError::from_str(&format!("Trailing data after the {}", what)));
+    }
+    Ok(value)
+}
+
 #[wasm_bindgen]
 impl FixedTransaction {
     pub fn new(
@@ -25,7 +35,7 @@ impl FixedTransaction {
         raw_witness_set: &[u8],
         is_valid: bool,
     ) -> Result<FixedTransaction, JsError> {
-        let body = TransactionBody::from_bytes(raw_body.to_vec())?;
+        let body = exact_from_bytes::<TransactionBody>(raw_body, "transaction body")?;
         let mut witness_set = FixedTxWitnessesSet::from_bytes(raw_witness_set.to_vec())?;
         let tx_hash = TransactionHash::from(blake2b256(raw_body));
 
@@ -54,10 +64,10 @@ impl FixedTransaction {
         raw_auxiliary_data: &[u8],
         is_valid: bool,
     ) -> Result<FixedTransaction, JsError> {
-        let body = TransactionBody::from_bytes(raw_body.to_vec())?;
+        let body = exact_from_bytes::<TransactionBody>(raw_body, "transaction body")?;
         let mut witness_set = FixedTxWitnessesSet::from_bytes(raw_witness_set.to_vec())?;
         let tx_hash = TransactionHash::from(blake2b256(raw_body));
-        let auxiliary_data = Some(AuxiliaryData::from_bytes(raw_auxiliary_data.to_vec())?);
+        let auxiliary_data = Some(exact_from_bytes::<AuxiliaryData>(raw_auxiliary_data, "auxiliary data")?);
 
         let tag_state =
             has_transaction_set_tag_internal(&body, Some(witness_set.tx_witnesses_set_ref()))?;
@@ -79,7 +89,7 @@ impl FixedTransaction {
     }
 
     pub fn new_from_body_bytes(raw_body: &[u8]) -> Result<FixedTransaction, JsError> {
-        let body = TransactionBody::from_bytes(raw_body.to_vec())?;
+        let body = exact_from_bytes::<TransactionBody>(raw_body, "transaction body")?;
         let tx_hash = TransactionHash::from(blake2b256(raw_body));
 
         let tag_state = has_transaction_set_tag_internal(&body, None)?;
@@ -143,7 +153,7 @@ impl FixedTransaction {
     }
 
     pub fn set_body(&mut self, raw_body: &[u8]) -> Result<(), JsError> {
-        let body = TransactionBody::from_bytes(raw_body.to_vec())?;
+        let body = exact_from_bytes::<TransactionBody>(raw_body, "transaction body")?;
         self.body = body;
         self.body_bytes = raw_body.to_vec();
         self.tx_hash = TransactionHash::from(blake2b256(raw_body));
@@ -180,7 +190,7 @@ impl FixedTransaction {
     }
 
     pub fn set_auxiliary_data(&mut self, raw_auxiliary_data: &[u8]) -> Result<(), JsError> {
-        let auxiliary_data = AuxiliaryData::from_bytes(raw_auxiliary_data.to_vec())?;
+        let auxiliary_data = exact_from_bytes::<AuxiliaryData>(raw_auxiliary_data, "auxiliary data")?;
         self.auxiliary_data = Some(auxiliary_data);
         self.auxiliary_bytes = Some(raw_auxiliary_data.to_vec());
         Ok(())
